@@ -99,8 +99,8 @@ impl Property for C18 {
     }
     fn runs(&self, tier: Tier) -> u64 {
         match tier {
-            Tier::Quick => 300,
-            Tier::Thorough => 6000,
+            Tier::Quick => 2500,
+            Tier::Thorough => 40000,
         }
     }
     fn rule(&self) -> &'static str {
